@@ -8,6 +8,7 @@ import (
 	"bytes"
 	"encoding/json"
 	"fmt"
+	"hash/fnv"
 	"io"
 	"runtime"
 	"sort"
@@ -156,6 +157,14 @@ func Build(cmds []Cmd) *araft.ClusterFSM {
 // Raw is the un-normalised private-state dump (deterministic: sorted keys, sorted index slices).
 // Raw equality implies Canon equality; the converse does not hold (empty index containers).
 func Raw(f *araft.ClusterFSM) string { return string(f.VerifDump()) }
+
+// Fingerprint is a 64-bit FNV-1a hash of Raw (only for vacuity counters: "did the state change",
+// "did the target hold another state"; never for an oracle).
+func Fingerprint(f *araft.ClusterFSM) uint64 {
+	h := fnv.New64a()
+	h.Write(f.VerifDump())
+	return h.Sum64()
+}
 
 // Listing is the manifest as the paginated read API serves it (goes through the sorted-key cache,
 // which is private state outside the dump); calling it also warms that cache.
